@@ -11,6 +11,7 @@ TRACE_CFG = {
     "ccm": ("CcmObjTrace", "CONSTANTS BS = 16\nHL = 2\nINIT TInit\nNEXT TNext\nCHECK_DEADLOCK FALSE\n"),
 }
 HASH_KINDS = ["md", "hmac", "sha3", "sha3u", "keccak", "keccaku", "blake", "blakeu", "cmac", "cmacu", "xof", "xofc"]
+CLASSIC = ["cbc", "cfb", "ofb", "ctr", "openpgp", "ecb", "chacha20", "stream", "kw", "kwp"]
 
 
 def hists_of(r):
@@ -47,6 +48,7 @@ def run(ctx):
     mcs = [("GcmMC", "GcmMC.cfg" if quick else "GcmMC_deep.cfg"), ("CcmMC", "CcmMC.cfg" if quick else "CcmMC_deep.cfg")]
     mcs += [("FsmMC", "FsmMC_%s.cfg" % m) for m in ("eax", "siv", "ocb", "chacha")]
     mcs += [("HashMC", "HashMC_%s.cfg" % k) for k in HASH_KINDS]
+    mcs += [("ClassicMC", "ClassicMC_%s.cfg" % m) for m in CLASSIC]
     with ThreadPoolExecutor(max_workers=6) as ex:
         list(ex.map(lambda mc: ctx.mc(mc[0], mc[1], workers=4, timeout=1500), mcs))
     # ---- 2. spec -> code: histories from TLC replayed on the real objects; 3. code -> spec: traces judged by TLC
@@ -88,6 +90,13 @@ def run(ctx):
         traces = ctx.drive("c10_aead", [], inp={"family": fam, "hists": hs, "tid0": tid0})
         tid0 += len(traces)
         judge(fam, "FsmObjTrace", None, traces)
+    # classic modes, stream ciphers, key wrap (obj/ClassicFsm)
+    tid0 = 300000
+    for fam in CLASSIC:
+        hs, n_enum = gen(ctx, "ClassicMC", "ClassicEnum_%s.cfg" % fam, "ClassicSim_%s.cfg" % fam, num, 8, cap // 3, rnd)
+        traces = ctx.drive("c10_classic", [], inp={"family": fam, "hists": hs, "tid0": tid0})
+        tid0 += len(traces)
+        judge(fam, "ClassicObjTrace", None, traces)
     algos = ctx.drive("c10_hash", ["list"])
     H = {}
     for k in HASH_KINDS:
@@ -152,14 +161,25 @@ def run(ctx):
             t["events"][0]["exc"] = "TypeError" if t["events"][0]["exc"] == "none" else "none"
             return t
         _selfcheck(ctx, "HashObjTrace", None, samples["hash"], corrupt_digest, "hash: one bit of a digest")
-    for fam in ("gcm", "ccm", "hash"):
+    if "cbc" in samples:
+        def flip_out(t):
+            for e in t["events"]:
+                if e["exc"] == "none" and e["out"]:
+                    e["out"][-1] ^= 4
+                    return t
+            return flip_exc(t)
+        _selfcheck(ctx, "ClassicObjTrace", None, samples["cbc"], flip_out, "cbc: one bit of an output")
+        _selfcheck(ctx, "ClassicObjTrace", None, samples["chacha20"], flip_out, "chacha20: one bit of an output")
+        _selfcheck(ctx, "ClassicObjTrace", None, samples["kwp"], flip_exc, "kwp: exception class of an accepted call")
+    for fam in ("gcm", "ccm", "hash", "cbc", "chacha20", "kwp"):
         if fam not in samples and not ctx.violations:
             raise RuntimeError("no accepted %s trace for the binding self-check" % fam)
     ctx.extra["traces_per_family"] = total
     ctx.rule = ("call sequences generated by TLC from the object-layer models (all sequences of depth <= 2..3 by exhaustive "
                 "enumeration, random deeper ones by -simulate, seed-dependent sample) over update/encrypt/decrypt/digest/verify/"
                 "hexdigest/hexverify/encrypt_and_digest/decrypt_and_verify/read/copy with boundary argument lengths, for GCM, CCM "
-                "(declared and undeclared lengths), EAX, SIV, OCB, ChaCha20-Poly1305 and 40 hash/XOF/MAC configurations; "
+                "(declared and undeclared lengths), EAX, SIV, OCB, ChaCha20-Poly1305, the classic modes CBC/CFB/OFB/CTR/OpenPGP/ECB over seven block-cipher "
+                "configurations, ChaCha20 (with seek), Salsa20, ARC4, KW and KWP (seal/unseal of genuine, forged, short and odd-length strings) and 40 hash/XOF/MAC configurations; "
                 "distinct_nontrivial = distinct (family, config, sequence) containing at least one accepted call")
     ctx.assume("the one-shot reference values are the library's own (that they equal the standards is C02/C03's subject)")
     ctx.assume("projection of private attributes (_next, caches, lengths) degrades to API-only observation if an attribute disappears")
